@@ -13,12 +13,12 @@ var commonSkips = map[string]string{
 
 var loopPolicies = map[string]loopPolicy{
 	// --- SPDX 2.3 writer ---
-	"serializers.(*SPDX23).buildPackages/Nodes": {skips: map[string]string{"kind-filter": "files are emitted by buildFiles (complementarity checked separately)"}},
-	"serializers.buildFiles/Nodes":               {skips: map[string]string{"kind-filter": "packages are emitted by buildPackages (complementarity checked separately)"}},
+	"serializers.(*SPDX23).buildPackages/Nodes":              {skips: map[string]string{"kind-filter": "files are emitted by buildFiles (complementarity checked separately)"}},
+	"serializers.buildFiles/Nodes":                           {skips: map[string]string{"kind-filter": "packages are emitted by buildPackages (complementarity checked separately)"}},
 	"serializers.(*SPDX23).buildPackages/ExternalReferences": {skips: map[string]string{"empty(Url)": "an SPDX external reference needs a locator"}},
 	// --- CycloneDX writer ---
-	"serializers.(*CDX).componentsMaps/Nodes": {skips: map[string]string{"lookup-miss": "nodeToComponent returns nil only for a nil node element"}},
-	"serializers.(*CDX).dependencies/Edges":   {skips: map[string]string{"switch-default(sbom.Edge_Type)": "CycloneDX expresses only containment and dependency"}},
+	"serializers.(*CDX).componentsMaps/Nodes":                     {skips: map[string]string{"lookup-miss": "nodeToComponent returns nil only for a nil node element"}},
+	"serializers.(*CDX).dependencies/Edges":                       {skips: map[string]string{"switch-default(sbom.Edge_Type)": "CycloneDX expresses only containment and dependency"}},
 	"serializers.(*serializerCDXState).components/componentsDict": {skips: map[string]string{"present-in-index": "already placed in the tree (sound by the placed⇒attached pairing rule)"}},
 	"serializers.(*CDX).nodeToComponent/Identifiers": {skips: map[string]string{
 		"switch-default(int32)": "CycloneDX components carry only purl and cpe",
@@ -28,9 +28,22 @@ var loopPolicies = map[string]loopPolicy{
 		"not:predicate(strings.Contains)":  "only generated references flagged auto are erased"}},
 	"serializers.(*CDX).dependencies/To": {skips: map[string]string{"dedupe": "a dependency target is listed once per edge; the key is the target id itself"}},
 	// --- CycloneDX reader ---
-	"unserializers.(*CDX).componentToNode/Hashes": {skips: map[string]string{"dedupe": "the model holds one value per hash algorithm; the key is the algorithm number"}},
+	"unserializers.(*CDX).componentToNode/Hashes":            {skips: map[string]string{"dedupe": "the model holds one value per hash algorithm; the key is the algorithm number"}},
 	"unserializers.(*CDX).licenseChoicesToLicenseList/lcs":   {skips: map[string]string{"empty(Expression)&empty(ID)": "a choice with neither expression nor licence id is not representable"}},
 	"unserializers.(*CDX).licenseChoicesToLicenseString/lcs": {skips: map[string]string{"empty(Expression)&empty(ID)": "a choice with neither expression nor licence id is not representable"}},
+	// --- node-list operations ---
+	"sbom.(*NodeList).Add/RootElements":         {skips: map[string]string{"present-in-index": "the identifier is already a root of the receiver"}},
+	"sbom.(*NodeList).Union/RootElements":       {skips: map[string]string{"present-in-index": "the identifier is already a root of the result"}},
+	"sbom.(*NodeList).Union/To":                 {skips: map[string]string{"predicate(sbom.(*Edge).PointsTo)": "the merged edge already points to the target"}},
+	"sbom.(*NodeList).Intersect/ni1":            {skips: map[string]string{"absent-from-index": "a node absent from the other operand does not survive: that is the intersection"}},
+	"sbom.(*NodeList).Intersect/To":             {skips: map[string]string{"present-in-index": "the merged edge already points to the target"}},
+	"sbom.(*NodeList).cleanEdges/Edges":         {skips: map[string]string{"absent-from-index": "the edge's source is not a node of the list: dropping it is the normalisation"}},
+	"sbom.(*NodeList).cleanEdges/To":            {skips: map[string]string{"absent-from-index": "the target is not a node of the list: dropping it is the normalisation"}},
+	"sbom.(*NodeList).cleanEdges/seenCache":     {skips: map[string]string{"not:len-test": "an edge left without targets is dropped"}},
+	"sbom.(*NodeList).RemoveNodes/Nodes":        {skips: map[string]string{"present-in-index": "the identifier is in the removal set"}},
+	"sbom.(*NodeList).RemoveNodes/RootElements": {skips: map[string]string{"present-in-index": "the identifier is in the removal set"}},
+	"sbom.(*NodeList).RelateNodeListAtID/Nodes": {skips: map[string]string{"present-in-index": "a node with that identifier is already in the list (documented de-duplication)"}},
+	"sbom.(*Edge).AddDestinationById/ids":       {skips: map[string]string{"dedupe": "a destination is added only once; the key is the identifier itself"}},
 	// --- SPDX3 (beta) writer ---
 	"beta.(*SPDX3).Serialize/Nodes":           {skips: map[string]string{"switch-default(sbom.Node_NodeType)": "a node kind outside {PACKAGE, FILE} is an unknown enum number"}},
 	"beta.purposeStringsFromPurpose/purposes": {skips: map[string]string{"switch-default(sbom.Purpose)": "unknown purpose number"}},
